@@ -98,7 +98,7 @@ SHAPES = [
     ({"A": 2}, {"A": 1, "B": 1}),
     ({}, {"C": 1}),
 ]
-OTHER = [("r_1", "r", {"A": 1}, {"B": 1}), ("q", "R", {"B": 1}, {"C": 2})]
+OTHER = [("r_1", "r", {"A": 1}, {"B": 1}), ("q", "R", {"B": 1}, {"C": 2}), ("snk", "r", {"C": 1}, {})]
 
 
 def small_alphabet():
@@ -121,6 +121,8 @@ def small_alphabet():
     ops.append(("assign_mol", "C", "molC"))
     ops.append(("set_mol_map", {"A": 1, "B": 2}, False, True))
     # sides as (label, count) pair lists: repeated labels accumulate, non-positive entries are ignored on their own
+    ops.append(("add_objs", {"A": 1}, {}, None, None))          # sink: the product side object is empty
+    ops.append(("add_objs", {}, {"B": 2}, "R", None))           # source
     ops.append(("add_pairs", [("A", 2), ("B", 1), ("A", 0)], [("C", 1)], None, None))
     ops.append(("add_pairs", [("A", 1), ("A", 2)], [("B", -1), ("B", 1), "C"], None, "x"))
     # annotation table keyed by species and by reaction ids alike (non-strict: unknown keys are skipped)
@@ -141,6 +143,11 @@ def random_op(rng, species, rules, live_ids):
         else:
             eid = None
         return ("add", sd(), sd(), rule, eid)
+    if k < 0.415:
+        sp2 = rng.sample(species, min(2, len(species)))
+        a = {sp2[0]: rng.randint(1, 2)} if rng.random() < 0.7 else {}
+        b = {sp2[-1]: rng.randint(1, 2)} if (not a or rng.random() < 0.6) else {}
+        return ("add_objs", a, b, rng.choice(rules + [None]), None)
     if k < 0.43:
         def pl():
             out = []
@@ -251,6 +258,15 @@ def apply_real(H, op):
                 b = [s for s, c in b.items() for _ in range(c)]
             e = H.add_rxn(a, b, rule=op[3], edge_id=op[4])
             return ("ok", e.id)
+        if k == "add_objs":
+            from synkit.CRN.Hypergraph.rxn import RXNSide
+            ra, rb = RXNSide(dict(op[1])), RXNSide(dict(op[2]))
+            e = H.add_rxn(ra, rb, rule=op[3], edge_id=op[4])
+            # the caller keeps using its own objects afterwards: that must not reach the stored reaction
+            ra.incr("Zq", 2)
+            rb.incr("Zq", 1)
+            rb["Zr"] = 3
+            return ("ok", e.id)
         if k == "add_pairs":
             e = H.add_rxn([tuple(x) if isinstance(x, (list, tuple)) else x for x in op[1]],
                           [tuple(x) if isinstance(x, (list, tuple)) else x for x in op[2]], rule=op[3], edge_id=op[4])
@@ -278,6 +294,8 @@ def apply_real(H, op):
 def apply_model(M, op):
     k = op[0]
     if k == "add":
+        return M.add(dict(op[1]), dict(op[2]), op[3], op[4])
+    if k == "add_objs":
         return M.add(dict(op[1]), dict(op[2]), op[3], op[4])
     if k == "add_pairs":
         def acc(items):
@@ -345,11 +363,11 @@ def run_sequence(ctx, ops):
                 return (f"{op} raised {rr[1]} but changed the observable state", step)
         if rr[0] != mr[0] and not ambiguous:
             return (f"{op}: store -> {rr}, model -> {mr}", step)
-        if rr[0] == "ok" and op[0] in ("add", "add_str", "add_pairs"):
+        if rr[0] == "ok" and op[0] in ("add", "add_str", "add_pairs", "add_objs"):
             mutated += 1
             if rr[1] in live_before:
                 return (f"{op}: returned id {rr[1]!r} was already live (two reactions under one id)", step)
-            if op[0] in ("add", "add_pairs") and op[4] is not None:
+            if op[0] in ("add", "add_pairs", "add_objs") and op[4] is not None:
                 caller_ids.add(op[4])
             elif caller_ids:
                 ctx.count("generated_id_after_caller_id")
@@ -377,6 +395,12 @@ def run_sequence(ctx, ops):
             except KeyError:
                 pass
         p = compare(H, M)
+        if not p:
+            # the side objects of the other network are extended in place (also empty ones); O itself is not used after this
+            for e_ in list(O.edges.values()):
+                e_.reactants.data["Zm"] = e_.reactants.data.get("Zm", 0) + 1
+                e_.products.data["Zn"] = e_.products.data.get("Zn", 0) + 2
+            p = compare(H, M)
         if p:
             del MERGED_FROM[:]
             return (f"editing a network after it was merged into the store changed the store: {p}", len(ops))
